@@ -234,7 +234,10 @@ CORPUS_V = [("x = 2 3", 5.0), ("x = 2 3 * 4", 14.0), ("x = 2 (3)", 5.0), ("x = 1
             # a magnitude suffix multiplies the literal, fraction included (no rounding of the product)
             ("2,0625k", 2.0625 * 1000), ("0,0625k * 4", 0.0625 * 1000 * 4), ("3 * - 0,0625k + 2", 3 * -(0.0625 * 1000) + 2),
             ("x = (0,0000005M + 1,5) * 2", (0.0000005 * 1000000 + 1.5) * 2), ("1,1k", 1.1 * 1000), ("0,00125M - 1", 0.00125 * 1000000 - 1),
-            ("1,23456k", 1.23456 * 1000), ("(1 + 2)(3 + 4)", 10.0), ("2 * (3)(4)", 10.0), ("(8 / 2)(-(3))", 1.0)]
+            ("1,23456k", 1.23456 * 1000),
+            # a sign in front of a parenthesis in the MIDDLE of an expression, with more operators behind the parenthesis
+            ("2 * -(3 + 4) * 5", -70.0), ("10 - -(3 + 4) + 5", 22.0), ("100 / -(2 + 3) / 2", -10.0), ("10 + -(2) * 3", 4.0),
+            ("x = 2 * -(3 + 4) * 5", -70.0), ("1 + +(2 * 3) - 4", 3.0), ("2 * -(-(3)) * 4 + 1", 25.0), ("8 / -(1 + 1) - -(3) * 2", 2.0), ("(1 + 2)(3 + 4)", 10.0), ("2 * (3)(4)", 10.0), ("(8 / 2)(-(3))", 1.0)]
 CORPUS = ["1 + 2 * 3", "(1+2)*3", "8 / 4 / 2 + 1", "2 * (3 + 4) * 5", "10 - 4 - 3", "1 / 0 + 5", "3-5", "2*3-5",
           "1 2 3", "2 * 3 4", "1k + 2", "x = 2 * (3 + 4)", "((1 + 2)) * 3", "1,5 * 2", "1.000 + 1",
           "- 5 + 2", "(- 5 + 1) * 2"]
